@@ -253,6 +253,13 @@ impl Universe for AddrValues {
                     [0, 0, 0, 0, 0, 0, 1, 0],
                     [0, 0, 0, 0, 0, 0xffff, 0, 0],
                     [0xa, 0xb, 0xc, 0xd, 0xe, 0xf, 0x10, 0x11],
+                    // address classes: link-local, multicast, unique-local, documentation, 6to4
+                    [0xfe80, 0, 0, 0, 0, 0, 0, 2],
+                    [0xfe80, 0, 0, 0, 0x0202, 0xb3ff, 0xfe1e, 0x8329],
+                    [0xff02, 0, 0, 0, 0, 0, 0, 1],
+                    [0xfd00, 0x1234, 0, 0, 0, 0, 0, 1],
+                    [0x2001, 0xdb8, 0, 0, 0, 0, 0, 0x1a],
+                    [0x2002, 0xc000, 0x0204, 0, 0, 0, 0, 1],
                 ];
                 for s in &specials {
                     for d in &specials {
@@ -266,6 +273,17 @@ impl Universe for AddrValues {
                     let all2: [u8; 108] = core::array::from_fn(|i| 255 - i as u8);
                     Self::emit(&AV::Unix { src: all, dst: all2 }, &mut buf, f);
                     Self::emit(&AV::Unix { src: [0; 108], dst: [0; 108] }, &mut buf, f);
+                    // realistic path shapes: filesystem path, abstract socket (leading NUL), '@' spelling, full-length path
+                    let shapes: Vec<Vec<u8>> = vec![b"/var/run/haproxy.sock".to_vec(), b"\0abstract-7f3a".to_vec(), b"@client-7f3a".to_vec(), b"@".to_vec(), vec![b'p'; 108], b"a\0b".to_vec(), b"./x".to_vec()];
+                    for a in &shapes {
+                        for bb in &shapes {
+                            let mut s108 = [0u8; 108];
+                            s108[..a.len()].copy_from_slice(a);
+                            let mut d108 = [0u8; 108];
+                            d108[..bb.len()].copy_from_slice(bb);
+                            Self::emit(&AV::Unix { src: s108, dst: d108 }, &mut buf, f);
+                        }
+                    }
                     for pos in 0..216 {
                         for v in [0x01u8, 0x80, 0xff] {
                             let mut t = [0u8; 216];
